@@ -147,6 +147,22 @@ def product_specs():
     return S
 
 
+def fn_spec(name, f, cuts=(), calls=True, scalar=True, rename=None):
+    """Spec from a casadi.Function built by the real code (inputs/outputs keep their names)"""
+    ins = [(f.name_in(i), f.size_in(i)) for i in range(f.n_in())]
+    outs = [f.name_out(i) for i in range(f.n_out())]
+    def build(*args, f=f, outs=outs):
+        res = f.call(list(args))
+        return list(zip(outs, res))
+    return Spec(name, [(n, tuple(s)) for n, s in ins], build, cuts=cuts, calls=calls, scalar=scalar)
+
+
+def rdd2_alloc_specs():
+    import cyecca.models.rdd2 as m
+    f = m.derive_control_allocation()["f_alloc"]
+    return [fn_spec("rdd2.control_allocation", f, cuts=("F_moment", "F_thrust"))]
+
+
 MODULES = {
     "Series": (series_specs, ()),
     "SO2": (so2_specs, ("Series",)),
@@ -156,4 +172,5 @@ MODULES = {
     "SE3": (se3_specs, ("Series",)),
     "SE23": (se23_specs, ("Series",)),
     "Products": (product_specs, ("Series",)),
+    "Alloc": (rdd2_alloc_specs, ("Series",)),
 }
